@@ -50,7 +50,9 @@ abbrev cfg : Cfg := Gen.Wake.cfg
 /-- The facts read off the current source: `record_ack`, `cancel`, `advance_to_file` and
 `request_resume` reach `notify_all()` under no more than the guards that coincide with their state
 change, both wait loops test cancel, then the condition, then the deadline, then park, and both hold
-the mutex without a gap from those tests to `wait_timeout` (check-and-park is one critical section). -/
+the mutex without a gap from those tests to `wait_timeout` (check-and-park is one critical section),
+and both re-read the monotonic clock on every pass for the deadline test (`expired` in the model is that
+test's answer; a form that is not re-derived from the clock each pass is modelled as never firing). -/
 theorem source_facts : cfg.Good := by decide
 
 /-- **No lost wake-up, per branch.** For every state, every method call and both waits: if the call
@@ -132,18 +134,19 @@ theorem progress (k : Kind) (st : St) (h : Ready k st) (e : Bool) :
   · have := h.2.2; simp [hb, PC.isReturned] at this
   · obtain ⟨s', hs', _⟩ := runBody_std_true k e st.sh hp
     have hl := source_facts.loopOf k
+    have hck := source_facts.clockOf k
     rcases hpc with h1 | h1 | h1
     · have hl0 : st.locked = false := by
         cases hlk : st.locked with
         | false => rfl
         | true => have := hm.mp hlk; simp [h1] at this
-      simp [run, step, h1, hl0, hl, hs']
+      simp [run, step, h1, hl0, hl, hck, hs']
     · have hl0 : st.locked = false := by
         cases hlk : st.locked with
         | false => rfl
         | true => have := hm.mp hlk; simp [h1] at this
-      simp [run, step, h1, hl0, hl, hs']
-    · simp [run, step, h1, hl, hs']
+      simp [run, step, h1, hl0, hl, hck, hs']
+    · simp [run, step, h1, hl, hck, hs']
 
 /-- **Every maximal run of the waiter's own steps ends in the matching return**: after any waiter
 steps, if no waiter step can change the state any more, the waiter has returned `expected`. -/
@@ -157,6 +160,7 @@ theorem progress_maximal (k : Kind) (st : St) (h : Ready k st) (evs : List Ev)
     generalize run cfg k st evs = st' at *
     obtain ⟨s', hs', _⟩ := runBody_std_true k false st'.sh hp
     have hl := source_facts.loopOf k
+    have hck := source_facts.clockOf k
     rcases hpc with h1 | h1 | h1
     · have hl0 : st'.locked = false := by
         cases hlk : st'.locked with
@@ -171,7 +175,7 @@ theorem progress_maximal (k : Kind) (st : St) (h : Ready k st) (evs : List Ev)
       have := congrArg St.pc (hmax .lock rfl)
       simp [step, h1, hl0] at this
     · have := congrArg St.pc (hmax (.check false) rfl)
-      simp [step, h1, hl, hs'] at this
+      simp [step, h1, hl, hck, hs'] at this
 
 -- non-vacuity of `Ready`: parked waiter, sufficient ack ⇒ woken with the condition true
 example : Ready (.credit 4) (run cfg (.credit 4) (St.init ⟨8, 8, 0, 0, none, none, []⟩)
@@ -220,16 +224,17 @@ theorem timeout_reached (k : Kind) (s0 : Sh) (pre : List Ev)
   have hinv := NoLost.run source_facts pre (NoLost.init k s0)
   generalize run cfg k (St.init s0) pre = st at *
   have hl := source_facts.loopOf k
+  have hck := source_facts.clockOf k
   have hb := runBody_std_false k true st.sh hp
   have hlock : st.pc ≠ .checking → st.locked = false := fun hne => by
     cases hlk : st.locked with
     | false => rfl
     | true => exact absurd (hinv.mutex.mp hlk) hne
   cases hpc : st.pc with
-  | start => simp [run, step, hpc, hlock (by simp [hpc]), hl, hb]
-  | woken => simp [run, step, hpc, hlock (by simp [hpc]), hl, hb]
-  | parked => simp [run, step, hpc, hlock (by simp [hpc]), hl, hb]
-  | checking => simp [run, step, hpc, hl, hb]
+  | start => simp [run, step, hpc, hlock (by simp [hpc]), hl, hck, hb]
+  | woken => simp [run, step, hpc, hlock (by simp [hpc]), hl, hck, hb]
+  | parked => simp [run, step, hpc, hlock (by simp [hpc]), hl, hck, hb]
+  | checking => simp [run, step, hpc, hl, hck, hb]
   | preparking => exact absurd hpc hinv.notPre
   | returned r => simp [hpc, PC.isReturned] at hnr
 
@@ -277,5 +282,13 @@ example :
     let st := run cfgGap .reconnect (St.init ⟨8, 8, 0, 0, none, none, []⟩)
       [.lock, .check false, .op (.cancel 1), .lock]
     st.pc = .parked ∧ pred .reconnect st.sh = true := by decide
+
+/-- The deadline test not re-derived from the clock on every pass (seed C12-B: a sticky `timed_out()`
+flag): read pessimistically the test may never fire, and `timeout_reached` fails. -/
+def cfgStickyClock : Cfg := { cfg with creditClock := false }
+
+example : ¬ cfgStickyClock.Good := by decide
+example : (run cfgStickyClock (.credit 4) (St.init ⟨8, 8, 0, 0, none, none, []⟩)
+    [.lock, .check false, .wake, .lock, .check true]).pc = .parked := by decide
 
 end Repe.C12
